@@ -339,6 +339,9 @@ struct StageV {
     restart: Option<u64>,
     at_stage: usize,
     inc: u32,
+    /// the restarted (second) incarnation requests a shutdown again in this start stage, i.e.
+    /// inside its restart event: (stage, restart delay)
+    again: Option<(usize, Option<u64>)>,
 }
 impl Module for StageV {
     fn num_sim_start_stages(&self) -> usize {
@@ -358,6 +361,14 @@ impl Module for StageV {
                 Some(r) => current().shutdow_and_restart_in(hs(r)),
             }
         }
+        if let Some((stage, r)) = self.again {
+            if self.inc == 2 && st == stage {
+                match r {
+                    None => current().shutdown(),
+                    Some(r) => current().shutdow_and_restart_in(hs(r)),
+                }
+            }
+        }
         if st == 2 {
             schedule_in(Message::default().kind(5), hs(1));
         }
@@ -367,11 +378,48 @@ impl Module for StageV {
     }
 }
 
+/// The restarted incarnation asks for another shutdown inside its restart event (in one of its
+/// start stages). The request takes effect at the end of that event: the stages of the restart
+/// complete, afterwards the module is inert (its self message is dropped), it is reset a second
+/// time, and a requested restart brings up a third incarnation exactly on time.
+fn run_stage_again(stage: usize, r2: Option<u64>) -> Result<u64, String> {
+    let got = quiet_catch(move || {
+        let log: Log = Default::default();
+        let mut sim = Sim::new(());
+        sim.node("s", StageV { log: log.clone(), restart: Some(3), at_stage: 2, inc: 0, again: Some((stage, r2)) });
+        sim.node("q", Q { log: log.clone() });
+        let r = Builder::seeded(1).quiet().max_time(100.0.into()).build(sim.freeze()).run();
+        drop(r);
+        let g = log.lock().unwrap().clone();
+        g
+    })
+    .map_err(|m| format!("panicked: {m}"))?;
+    let resets = got.iter().filter(|s| s.starts_with("S.reset@")).count();
+    if resets != 2 {
+        return Err(format!("second shutdown requested in start stage {stage} of the restart event (restart {r2:?}): reset ran {resets} times for 2 shutdowns: {got:?}"));
+    }
+    let got: Vec<String> = got.into_iter().filter(|s| !s.starts_with("S.reset@")).collect();
+    let mut exp: Vec<String> = (0..3).map(|s| format!("S.start1:{s}@0")).collect();
+    exp.extend((0..3).map(|s| format!("S.start2:{s}@3")));
+    if let Some(r) = r2 {
+        exp.extend((0..3).map(|s| format!("S.start3:{s}@{}", 3 + r)));
+        if r < 1 {
+            exp.push("S.msg@4".into());
+        }
+        exp.push(format!("S.msg@{}", 4 + r));
+    }
+    // r2 == 1: the old self message arrives exactly at the restart instant (tie)
+    if got != exp && r2 != Some(1) {
+        return Err(format!("second shutdown requested in start stage {stage} of the restart event (restart {r2:?}): trace {got:?}, expected {exp:?}"));
+    }
+    Ok(vcheck::fp(&got))
+}
+
 fn run_stage(at_stage: usize, restart: Option<u64>) -> Result<u64, String> {
     let got = quiet_catch(move || {
         let log: Log = Default::default();
         let mut sim = Sim::new(());
-        sim.node("s", StageV { log: log.clone(), restart, at_stage, inc: 0 });
+        sim.node("s", StageV { log: log.clone(), restart, at_stage, inc: 0, again: None });
         sim.node("q", Q { log: log.clone() });
         let r = Builder::seeded(1).quiet().max_time(100.0.into()).build(sim.freeze()).run();
         drop(r);
@@ -513,7 +561,7 @@ impl Property for C09 {
     }
     fn rule(&self, tier: Tier) -> String {
         format!(
-            "timelines in half-second units: first shutdown at {{4,6}} x restart delay {{none,0,2,5}} x requested from {{handler, task}} x old task deadline {{2,4,6,7,11,30}} x new task sleep {{1,3}} x second shutdown {{none, +2 no restart, +2 restart 2, +3 restart 0}}              x message route {{to the victim, through a transit gate of the victim}} x {{direct, over a latency channel}} x restart requested by delay or (direct case) by absolute time x every set of up to {} arrival times from {{1,3,4,5,6,8,9,11,13,16}}; plus shutdown requested in each of 3 start stages x restart {{none,0,3}}; plus a module whose every incarnation runs one script (N tasks polled at start and after a sleep, N values drained by one task, N tasks spawned by a handler; N in {{1,2,3,59..63,70,128,129,200}}, restart delay {{0,1,1500}} ms): the restarted incarnation's log, relative to its start, must equal the fresh one's;              oracle: expectation computed from the plan: no callback, task step or timer of the victim inside an inert window, messages inside it dropped (also through its transit gate) and never delivered later, reset once per shutdown, start stages once at exactly the restart time, old tasks never resume, task captures dropped, peer receives exactly the echoes;              an event at exactly the shutdown/restart instant is a tie and accepted either way; non-trivial = timeline with a message or deadline strictly inside an inert window",
+            "timelines in half-second units: first shutdown at {{4,6}} x restart delay {{none,0,2,5}} x requested from {{handler, task}} x old task deadline {{2,4,6,7,11,30}} x new task sleep {{1,3}} x second shutdown {{none, +2 no restart, +2 restart 2, +3 restart 0}}              x message route {{to the victim, through a transit gate of the victim}} x {{direct, over a latency channel}} x restart requested by delay or (direct case) by absolute time x every set of up to {} arrival times from {{1,3,4,5,6,8,9,11,13,16}}; plus shutdown requested in each of 3 start stages x restart {{none,0,3}}; plus a second shutdown requested by the restarted incarnation inside its restart event (each of its 3 start stages x restart {{none,0,2,5}}: the restart's stages complete, then inert, second reset, third incarnation on time); plus a module whose every incarnation runs one script (N tasks polled at start and after a sleep, N values drained by one task, N tasks spawned by a handler; N in {{1,2,3,59..63,70,128,129,200}}, restart delay {{0,1,1500}} ms): the restarted incarnation's log, relative to its start, must equal the fresh one's;              oracle: expectation computed from the plan: no callback, task step or timer of the victim inside an inert window, messages inside it dropped (also through its transit gate) and never delivered later, reset once per shutdown, start stages once at exactly the restart time, old tasks never resume, task captures dropped, peer receives exactly the echoes;              an event at exactly the shutdown/restart instant is a tie and accepted either way; non-trivial = timeline with a message or deadline strictly inside an inert window",
             tier.pick(2, 3)
         )
     }
@@ -524,7 +572,7 @@ impl Property for C09 {
         ]
     }
     fn required_features(&self, _tier: Tier) -> Vec<&'static str> {
-        vec!["same_instant_tie", "message_inside_inert_window", "repeated_cycle", "request_from_task", "transit_gate_route", "latency_channel", "shutdown_in_start_stage", "restarted_vs_fresh_incarnation"]
+        vec!["same_instant_tie", "message_inside_inert_window", "repeated_cycle", "request_from_task", "transit_gate_route", "latency_channel", "shutdown_in_start_stage", "restarted_vs_fresh_incarnation", "shutdown_requested_inside_the_restart_event"]
     }
     fn explore(&self, ctx: &mut Ctx) {
         if ctx.is_first_shard() {
@@ -550,6 +598,18 @@ impl Property for C09 {
                 match run_twin(n, restart) {
                     Ok(o) => ctx.outcome(o),
                     Err(d) => ctx.violation("violation", || json!({"twin_tasks": n, "restart_ms": restart}), d),
+                }
+            }
+        }
+        if ctx.is_first_shard() {
+            for stage in 0..3 {
+                for r2 in [None, Some(0u64), Some(2), Some(5)] {
+                    ctx.out.evaluations += 1;
+                    ctx.hit("shutdown_requested_inside_the_restart_event");
+                    match run_stage_again(stage, r2) {
+                        Ok(o) => ctx.outcome(o),
+                        Err(d) => ctx.violation("violation", || json!({"restart_stage": stage, "restart2": r2}), d),
+                    }
                 }
             }
         }
@@ -634,6 +694,9 @@ impl Property for C09 {
     fn replay(&self, case: &Value) -> Result<(), String> {
         if let Some(n) = case.get("twin_tasks") {
             return run_twin(n.as_u64().unwrap() as usize, case["restart_ms"].as_u64().unwrap()).map(|_| ());
+        }
+        if let Some(st) = case.get("restart_stage") {
+            return run_stage_again(st.as_u64().unwrap() as usize, case["restart2"].as_u64()).map(|_| ());
         }
         if let Some(st) = case.get("start_stage") {
             return run_stage(st.as_u64().unwrap() as usize, case["restart"].as_u64()).map(|_| ());
